@@ -448,7 +448,11 @@ async fn run(_tier: Tier) {
     let adversarial = sim::draw("adversarial", 4) != 0;
     // Clock plan: offset of the wall clock relative to the signing epoch.
     let day = 86_400i64 * 1_000_000_000;
-    let clock_plan = if adversarial { sim::draw("clock.plan", 9) } else { 0 };
+    // Plans 9-12 put every validation of the run exactly at a boundary second
+    // of the signatures' validity (RFC 4035 5.3.1: inception <= now <=
+    // expiration): the last invalid second, the first valid one, the last
+    // valid one, the first invalid one.
+    let clock_plan = if adversarial { sim::draw("clock.plan", 13) } else { 0 };
     let base_off = match clock_plan {
         5 => 40 * day,  // all signatures expired
         6 => -3 * day,  // not yet valid
@@ -578,6 +582,19 @@ async fn run(_tier: Tier) {
         let req_msg = qb.into_message();
         let bytes = to_message(&req_msg, &r);
         let mut msg = Message::from_octets(bytes).expect("message");
+        if (9..=12).contains(&clock_plan) {
+            let target: i128 = match clock_plan {
+                9 => w.inception as i128 - 1,
+                10 => w.inception as i128,
+                11 => w.expiration as i128,
+                _ => w.expiration as i128 + 1,
+            };
+            // 0.2 s into that second, so that the whole validation (a few
+            // upstream latencies) stays inside it.
+            let off = target * 1_000_000_000 + 200_000_000 - (sim::EPOCH_BASE as i128 * 1_000_000_000 + sim::now_ns() as i128);
+            sim::set_wall_offset_ns(off as i64);
+            sim::stat("fault.clock_at_validity_boundary");
+        }
         let wall = sim::wall_secs();
         let in_window = wall >= w.inception as u64 && wall <= w.expiration as u64;
         ev!("validate #{} {} {} ({}) final_harm={:?} applied={} infra_harm={:?} wall-epoch={}d", qi, qname, qtype, class, final_harm, final_harmed, infra_harm, (wall as i64 - sim::EPOCH_BASE as i64) / 86_400);
